@@ -1309,4 +1309,160 @@ example : shown (display [⟨[⟨"secret", true⟩], "abc"⟩, ⟨[⟨"peername"
 
 end Disp
 
+/-! ## Round 8b: the call sequence Default → LoadJSON → ApplyEnvVars → Validate of EVERY section, regenerated and interpreted -/
+namespace Seq
+
+/-- assignments and checked fallible steps run to the end or refuse: nothing is skipped -/
+theorem interp_body (o : Oracle) (body rest : List Ev) (hb : body.all isBody = true) (i : Nat) (s : St) :
+    interp o (body ++ rest) i 0 s = .err ∨
+    interp o (body ++ rest) i 0 s
+      = interp o rest (i + body.length) 0 { s with assigned := s.assigned + countAssign body } := by
+  induction body generalizing i s with
+  | nil => right; simp [countAssign]
+  | cons e es ih =>
+    simp only [List.all_cons, Bool.and_eq_true] at hb
+    obtain ⟨he, hes⟩ := hb
+    cases e <;> simp [isBody] at he
+    · have := ih hes (i+1) { s with assigned := s.assigned + 1 }
+      simp only [List.cons_append, interp]
+      rcases this with h | h
+      · left; exact h
+      · right; rw [h]
+        have h1 : i + 1 + es.length = i + (es.length + 1) := by omega
+        have h2 : s.assigned + 1 + countAssign es = s.assigned + countAssign (Ev.assign :: es) := by
+          simp [countAssign]; omega
+        simp only [List.length_cons, h1, h2]
+    · simp only [List.cons_append, interp]
+      cases hf : o.fails i
+      · have := ih hes (i+1) s
+        simp only [Bool.false_eq_true, if_false]
+        rcases this with h | h
+        · left; exact h
+        · right; rw [h]
+          have h1 : i + 1 + es.length = i + (es.length + 1) := by omega
+          have h2 : countAssign (Ev.try :: es) = countAssign es := by
+            simp [countAssign]
+          simp only [List.length_cons, h1, h2]
+      · left; simp
+
+theorem applyOk_split (a : List Ev) (h : applyOk a = true) :
+    ∃ body, a = body ++ [.retValidate] ∧ body.all isBody = true ∧ countAssign a = countAssign body ∧ 0 < countAssign body := by
+  simp only [applyOk, Bool.and_eq_true] at h
+  obtain ⟨⟨h1, h2⟩, h3⟩ := h
+  have hl : a.getLast? = some .retValidate := by simpa using h1
+  obtain ⟨ys, rfl⟩ := List.getLast?_eq_some_iff.mp hl
+  have hc : countAssign (ys ++ [Ev.retValidate]) = countAssign ys := by
+    simp [countAssign, List.filter_append]
+  refine ⟨ys, rfl, by simpa using h2, hc, ?_⟩
+  rw [hc] at h3; simpa using h3
+
+/-- **LoadJSON of a well-shaped section**: whatever fails or not, the call either refuses or has started from the defaults,
+executed every assignment of the apply function, dropped no error and returned what `Validate()` said — which was "valid". -/
+theorem load_shape_sound (o : Oracle) (a : List Ev) (h : applyOk a = true) (s : St) :
+    run o (expand [.unmarshal, .dflt, .apply] a) s = .err ∨
+    (o.valid = true ∧
+      run o (expand [.unmarshal, .dflt, .apply] a) s = .ok true { dflt := true, assigned := countAssign a, dropped := s.dropped }) := by
+  obtain ⟨body, rfl, hb, hc, _⟩ := applyOk_split a h
+  have hexp : expand [.unmarshal, .dflt, .apply] (body ++ [.retValidate]) = .unmarshal :: .dflt :: (body ++ [.retValidate]) := by
+    simp [expand, List.flatMap]
+  rw [hexp, hc]
+  simp only [run, interp]
+  cases hf : o.fails 0
+  · simp only [Bool.false_eq_true, if_false]
+    rcases interp_body o body [.retValidate] hb (0+1+1) { s with dflt := true, assigned := 0 } with h1 | h1
+    · left; exact h1
+    · rw [h1]; simp only [interp]
+      cases hv : o.valid
+      · left; simp
+      · right; simp
+  · left; simp
+
+/-- **ApplyEnvVars of a well-shaped section**: no `Default()` — the values loaded from the file stay under the variables —
+every assignment runs, the result is validated. -/
+theorem env_shape_sound (o : Oracle) (a : List Ev) (h : applyOk a = true) (s : St) :
+    run o (expand [.toJSON, .process, .apply] a) s = .err ∨
+    (o.valid = true ∧
+      run o (expand [.toJSON, .process, .apply] a) s = .ok true { s with assigned := s.assigned + countAssign a }) := by
+  obtain ⟨body, rfl, hb, hc, _⟩ := applyOk_split a h
+  have hexp : expand [.toJSON, .process, .apply] (body ++ [.retValidate]) = .toJSON :: .process :: (body ++ [.retValidate]) := by
+    simp [expand, List.flatMap]
+  rw [hexp, hc]
+  simp only [run, interp]
+  cases hf : o.fails 0
+  · cases hg : o.fails (0+1)
+    · simp only [Bool.false_eq_true, if_false]
+      rcases interp_body o body [.retValidate] hb (0+1+1) s with h1 | h1
+      · left; exact h1
+      · rw [h1]; simp only [interp]
+        cases hv : o.valid
+        · left; simp
+        · right; simp
+    · left; simp
+  · left; simp
+
+/-- accepted ⇒ valid, as one line (both entry points) -/
+theorem accepted_validated (o : Oracle) (a : List Ev) (h : applyOk a = true) (s : St) (v : Bool) (t : St) :
+    (run o (expand [.unmarshal, .dflt, .apply] a) s = .ok v t → v = true ∧ o.valid = true ∧ t.dflt = true ∧ t.assigned = countAssign a) ∧
+    (run o (expand [.toJSON, .process, .apply] a) s = .ok v t → v = true ∧ o.valid = true ∧ t.dflt = s.dflt) := by
+  constructor
+  · intro hr
+    rcases load_shape_sound o a h s with h1 | ⟨hv, h1⟩
+    · rw [h1] at hr; cases hr
+    · rw [h1] at hr; cases hr; exact ⟨rfl, hv, rfl, rfl⟩
+  · intro hr
+    rcases env_shape_sound o a h s with h1 | ⟨hv, h1⟩
+    · rw [h1] at hr; cases hr
+    · rw [h1] at hr; cases hr; exact ⟨rfl, hv, rfl⟩
+
+def never : Nat → Bool := fun _ => false
+def always : Nat → Bool := fun _ => true
+
+/-- refutation: an apply function ending in `return nil` accepts what Validate() rejects -/
+theorem no_validate_accepts_invalid :
+    run ⟨never, never, false⟩ [.unmarshal, .dflt, .assign, .retNil] fresh = .ok false ⟨true, 1, false⟩ := by decide
+
+/-- refutation (the shape of seeded change C15f): a helper that returns early for a disabled subsystem is accepted and
+validated with only one of its two assignments executed -/
+theorem helper_early_return_skips :
+    run ⟨never, always, true⟩ [.unmarshal, .dflt, .assign, .skip 2, .try, .assign, .try, .retValidate] fresh = .ok true ⟨true, 1, false⟩ ∧
+    run ⟨never, never, true⟩ [.unmarshal, .dflt, .assign, .skip 2, .try, .assign, .try, .retValidate] fresh = .ok true ⟨true, 2, false⟩ := by decide
+
+/-- refutation (the shape of /repo 639679f, crdt): an unchecked ParseDurations error is accepted -/
+theorem dropped_error_accepted :
+    run ⟨always, never, true⟩ [.dflt, .assign, .droppedErr, .retValidate] fresh = .ok true ⟨true, 1, true⟩ := by decide
+
+/-- refutation: LoadJSON without Default() keeps whatever the object held (no fresh start) -/
+theorem no_default_keeps_stale :
+    run ⟨never, never, true⟩ [.unmarshal, .assign, .retValidate] ⟨false, 7, false⟩ = .ok true ⟨false, 8, false⟩ := by decide
+
+/-- refutation: ApplyEnvVars that calls Default() forgets the file (assignments counted from zero again) -/
+theorem env_with_default_forgets_file :
+    run ⟨never, never, true⟩ [.toJSON, .process, .dflt, .assign, .retValidate] ⟨true, 5, false⟩ = .ok true ⟨true, 1, false⟩ := by decide
+
+/-- **the regenerated table**: every section's LoadJSON is parse → Default → apply, ApplyEnvVars is current → environment →
+apply, the apply function (helpers inlined) consists of assignments and checked fallible steps and ends in `return cfg.Validate()`;
+helper-scoped early returns only where allow-listed -/
+theorem table_section_seqs : Gen.sectionSeqs.all SecSeq.ok = true := by decide
+
+theorem table_section_seqs_cover : Gen.sectionSeqs.map (·.name) = Gen.sections.map (·.name) := by decide
+
+/-- the sections without an allow-listed early return have the strict shape -/
+theorem table_strict_sections :
+    (Gen.sectionSeqs.filter fun s => !skipAllowed.contains s.name).all (fun s => applyOk s.apply) = true := by decide
+
+/-- every regenerated section outside the allow-list: an accepted LoadJSON started from the defaults, ran every assignment and
+was validated; an accepted ApplyEnvVars kept the loaded state underneath and was validated -/
+theorem gen_sections_sound (sq : SecSeq) (hm : sq ∈ Gen.sectionSeqs) (hn : skipAllowed.contains sq.name = false)
+    (o : Oracle) (s : St) (v : Bool) (t : St) :
+    (run o (expand [.unmarshal, .dflt, .apply] sq.apply) s = .ok v t → v = true ∧ o.valid = true ∧ t.dflt = true ∧ t.assigned = countAssign sq.apply) ∧
+    (run o (expand [.toJSON, .process, .apply] sq.apply) s = .ok v t → v = true ∧ o.valid = true ∧ t.dflt = s.dflt) := by
+  have h := table_strict_sections
+  rw [List.all_eq_true] at h
+  have := h sq (List.mem_filter.mpr ⟨hm, by rw [hn]; rfl⟩)
+  exact accepted_validated o sq.apply this s v t
+
+example : applyOk [.assign, .try, .assign, .try, .retValidate] = true := by decide
+
+end Seq
+
 end CV.C15
